@@ -31,6 +31,17 @@ SCALAR_RULE = ("complete enumeration of the value alphabet V64 (exhaustive prefi
                "entry point of every scalar family on the real code; a class is a distinct (family, entry point, "
                "encoded length, alignment) combination reached")
 
+WRAP_SCHED = ("-Wl,--wrap=malloc,--wrap=calloc,--wrap=realloc,--wrap=free,--wrap=memcpy,--wrap=memmove,--wrap=memset,"
+              "--wrap=memcmp,--wrap=qsort,--wrap=pthread_mutex_lock,--wrap=pthread_mutex_unlock,--wrap=pthread_mutex_trylock")
+# library (and the operation bodies that expand its macros) compiled with the compiler's TSan instrumentation but linked
+# with OUR runtime (engine/vsched.c), not libtsan: every shared access becomes an event of the controlled scheduler
+CONFIGS["tsanabi"] = dict(cc="clang", cflags=["-std=gnu11", "-O1", "-g", "-fPIC"],
+                          libcflags=["-std=gnu11", "-O1", "-g", "-fPIC", "-DNDEBUG", "-fsanitize=thread"],
+                          ldflags=[WRAP_SCHED])
+# free-running cross-check with the real libtsan
+CONFIGS["tsan"] = dict(cc="clang", cflags=["-std=gnu11", "-O1", "-g", "-fPIC", "-DNDEBUG", "-fsanitize=thread"],
+                       env={"TSAN_OPTIONS": "halt_on_error=1:exitcode=66:report_signal_unsafe=0"})
+
 CHECKS = {}
 
 
@@ -78,6 +89,9 @@ ENGINES = [
     {"name": "E-fault", "path": "checks/c18.c + engine/vmalloc.c", "serves_properties": ["C18"],
      "kind_free_text": "deviation-bounded enumeration of environment answers: the k-th allocation of a call fails, for every k "
                        "(and every pair), through a link-time interposed allocator with leak / redzone oracles"},
+    {"name": "E-sched", "path": "engine/vsched.c + checks/c17.c", "serves_properties": ["C17"],
+     "kind_free_text": "controlled scheduler over real pthreads with a TSan-ABI runtime of our own: memory events, conflict "
+                       "computation, iterative context bounding"},
     {"name": "E-hist", "path": "checks/c15.c", "serves_properties": ["C15"],
      "kind_free_text": "enumeration of bounded call histories and stack/heap residues in forked children against fresh-process baselines"},
     {"name": "E-bfs", "path": "checks/bitmap_bfs.c", "serves_properties": ["C08"],
@@ -286,4 +300,29 @@ CHECKS["C15"] = dict(
     technique="exhaustive enumeration of bounded call histories and environment residues against fresh-process baselines (stateless model checking of history-independence)",
     assumptions=["histories longer than 3 calls and residues outside the alphabet are not explored",
                  "struct padding and metadata fields the format cannot carry are not compared"],
+)
+
+CHECKS["C17"] = dict(
+    name="c17", harness=["checks/c17.c", "checks/c17_ops.c", "engine/vsched.c"], instrumented=["checks/c17_ops.c"],
+    harness_by_config={"tsan": ["checks/c17_free.c", "checks/c17_ops.c"]},
+    libs=LIBS_ALL, engine="E-sched",
+    configs={"quick": ["tsanabi", "tsan"], "thorough": ["tsanabi", "tsan"]},
+    shards={"tsanabi": 16, "tsan": 1},
+    deadline={"quick": 150, "thorough": 1800},
+    rule="operation alphabet of ~65 calls documented as pure (every scalar family, every array codec, packed arrays / bitstream / "
+         "a private bitmap on disjoint storage) on three shared read-only inputs and private outputs; harnesses: every unordered "
+         "pair {i, j}, i <= j, as two threads (the pair (i, i) forces a collision on any lazily built or static scratch state), "
+         "one three-thread harness per operation, one 16-thread harness running every operation in 16 rotations; per harness: solo "
+         "runs, three serial orders (ascending, descending, switch at every function entry) with per-thread event-log and output "
+         "equality, conflict computation over all memory events, then every schedule up to preemption bound 1 (quick) / 2 "
+         "(thorough) over the choice points; class = (first operation of the pair)",
+    explanation="stateless model checking under a controlled scheduler: real pthreads serialised by a baton, every compiler-"
+                "instrumented memory access, mem* call, allocation, mutex and atomic operation of the library is an event; two "
+                "events of different threads conflict if they overlap, one writes, they are not both atomic and share no lock; no "
+                "conflict + schedule-independent per-thread paths => all interleavings are equivalent (DRF => SC), and schedules "
+                "are still enumerated with iterative context bounding; separate free-running pass with the real ThreadSanitizer",
+    technique="stateless model checking: preemption-bounded schedule enumeration over hooked memory events with measured independence",
+    assumptions=["schedules are explored under sequential consistency; the step from 'no conflicting accesses' to 'all schedules' is "
+                 "the standard independence argument, checked for path determinism but not mechanically proved",
+                 "uninstrumented libc internals are covered only by the free-running ThreadSanitizer pass"],
 )
